@@ -18,6 +18,8 @@ def line_output(prompt, cont, l):
         return 'see ' + prompt + '!' + CRLF
     if c == 'q':
         return 'see ' + cont + '!' + CRLF
+    if c == 's':
+        return l + CRLF                             # s<text>: the output is the command line itself (what an echo would look like)
     if c == 'w':
         return ''                                   # w: a slow line without output (the real child sleeps before answering)
     if c == 'r' and ',' in payload and payload.split(',', 1)[0].isdigit():      # r<count>,<text>: only in the real child (not in the Coq family)
